@@ -469,7 +469,7 @@ pub fn main(env: &Env) -> i32 {
          oracle after every step: queued/persisted are nested ranges and queued.next never decreases; every block in the reported range reads back, carries its number, is a verified offered block and never changes (except that storage wins after a side-channel jump); \
          storage submissions follow the previous submission or the durable head; invalid blocks fail at once and change nothing; queue_block(n) completes exactly when block n-1 is queued. \
          Non-trivial = concurrent / out-of-order submitters together with persistence lag > 100, a jump overtaking the queue, or a restart losing unpersisted blocks",
-        PartOpts { cases: env.tier.pick(2_500, 60_000), max_shrink_iters: 600, samples: 2 },
+        PartOpts { cases: env.tier.pick(2_500, 40_000), max_shrink_iters: 600, samples: 2 },
         || Choices::strategy(300).prop_map(|mut ch| gen_case(&mut ch)),
         check,
     ));
